@@ -303,6 +303,13 @@ func c16Main(r *run.Runner) {
 			b, _ := os.ReadFile(outPath)
 			s := string(b)
 			c16Compare(w, input, "-o", got, &s)
+			// the output file exists already and is longer than what this run writes: nothing of it may remain
+			os.WriteFile(outPath, []byte(strings.Repeat("SELECT 'stale output of an earlier run';\n", 40)), 0o644)
+			w.Begin("cli-vs-model:-o-existing", input)
+			got = e.run(w, input, "-o", outPath)
+			b, _ = os.ReadFile(outPath)
+			s = string(b)
+			c16Compare(w, input, "-o", got, &s)
 			crlf := strings.ReplaceAll(input, "\n", "\r\n")
 			w.Begin("cli-vs-model:crlf", crlf)
 			c16Compare(w, crlf, "crlf", e.run(w, crlf), nil)
@@ -570,6 +577,7 @@ func c16Replay(w *run.Worker, v *run.Viol) {
 		c16Compare(w, input, ch, e.run(w, "", f1), nil)
 	case "-o":
 		outPath := filepath.Join(scratch, "out.sql")
+		os.WriteFile(outPath, []byte(strings.Repeat("SELECT 'stale output of an earlier run';\n", 40)), 0o644)
 		got := e.run(w, input, "-o", outPath)
 		b, _ := os.ReadFile(outPath)
 		s := string(b)
